@@ -38,10 +38,23 @@ def run(ck):
     for name in ("Pistache::match_raw", "Pistache::match_string"):
         for f in [x for x in prog.by_base.get(name, []) if len(x.params) >= 3 and "size_t" in x.params[1]["type"]]:
             lenp = f.params[1]["name"]
-            tests = [b for b in f.blocks.values() if b.term and b.term.get("k") == "if" and b.term.get("cmp") == "<" and "remaining" in ((b.term.get("lhs") or {}).get("t") or "")
-                     and (b.term.get("rhs") or {}).get("v") == lenp]
+            # edges on which remaining() >= len is known: the not-taken edge of `if (remaining() < len) return false`, or the taken edge
+            # of `remaining() >= len && ...`
+            enough = []
+            for b in f.blocks.values():
+                t_ = b.term
+                if not t_ or len(b.succs) != 2:
+                    continue
+                for k_ in (0, 1):
+                    r_ = lib.rel_on_edge(t_, k_)
+                    if r_ is None or b.succs[k_] is None:
+                        continue
+                    for a_, rel_, o_ in ((r_[0], r_[1], r_[2]), (r_[2], lib._SWAP[r_[1]], r_[0])):
+                        if "remaining" in (a_.get("t") or "") and rel_ in (">=",) and o_.get("v") == lenp:
+                            enough.append((b.id, k_))
+            tests = enough
             uses = [e for e in f.events("call") if (e.get("callee") or "") in lib.BOUNDED_SINKS] + [e for e in f.events("subscript")]
-            ok = bool(tests) and all(cfg.edge_dominates(f, tests[0].id, 1, e) for e in uses) and \
+            ok = bool(tests) and all(any(cfg.edge_dominates(f, bid_, k_, e) for bid_, k_ in tests) for e in uses) and \
                 all((e["args"][-1].get("v") == lenp) for e in uses if e["k"] == "call")
             ck.ob("C18-R1", "%s/remaining-before-compare" % name.replace("Pistache::", ""), ok, f.loc, f, "`cursor.remaining() < %s` bails out before %d bounded reads" % (lenp, len(uses)))
 
@@ -50,8 +63,10 @@ def run(ck):
     rmap = dict(rpairs)
     ts = lib.single(prog, M + "MediaType::toString")
     wmap = {}
-    for lf in prog.lambdas_in(ts):
-        wmap.update(tables.switch_map(lf))
+    # the enumerator -> text switches: local lambdas of toString, or file-local helpers it calls
+    for lf in lib.region(prog, ts, within=lambda g_: g_.file == ts.file and not g_.cls):
+        if lf.id != ts.id:
+            wmap.update(tables.switch_map(lf))
     ck.require(len(rmap) >= 15 and len(wmap) >= 15, "mime tables: reader %d writer %d" % (len(rmap), len(wmap)))
     for kind in ("Type", "Subtype", "Suffix"):
         w = {k: v for k, v in wmap.items() if ("::" + kind + "::") in k and isinstance(v, str)}
@@ -99,15 +114,34 @@ def run(ck):
 
     # ---------------- R4 ----------------
     for f in [x for x in prog.by_base.get("Pistache::match_string", []) if len(x.params) >= 4]:
-        tl = [e for e in f.calls(lambda e: (e.get("callee") or "") in ("tolower", "std::tolower"))]
-        # the two characters compared in the insensitive arm: both operands of the != / == test are locals initialised through tolower
-        decls = {d["var"]: d for d in f.events("decl")}
-        cmp_events = [e for e in f.events("cmp") if e.get("op") in ("!=", "==") and e["lhs"].get("v") in decls and e["rhs"].get("v") in decls
-                      and "char" in (decls[e["lhs"]["v"]].get("type") or "") and "char" in (decls[e["rhs"]["v"]].get("type") or "")]
-        folded = [v for e in cmp_events for v in (e["lhs"]["v"], e["rhs"]["v"]) if "tolower" in ((decls[v].get("init") or {}).get("t") or "")]
-        ok = len(tl) >= 2 and bool(cmp_events) and len(folded) == 2 * len(cmp_events)
+        # the characters compared in the insensitive arm -- in match_string, in a lambda it hands to an algorithm or in a file-local
+        # folding helper -- are both folded with tolower (directly, through a local, or through a helper that returns tolower(c))
+        reg4 = lib.region(prog, f, within=lambda g_: g_.file == f.file and not g_.cls and g_.base != f.base)
+        folders = {"tolower"} | {g_.base.rsplit("::", 1)[-1] for g_ in prog.library_funcs() if g_.file == f.file and not g_.cls and not g_.is_lambda and
+                                 [r_ for r_ in g_.events("return")] and any("tolower(" in (r_.get("t") or "") for r_ in g_.events("return"))}
+        fold_re = re.compile(r"\b(?:%s)\s*\(" % "|".join(sorted(map(re.escape, folders))))
+        tl = [e for g_ in reg4 for e in g_.calls(lambda e: (e.get("callee") or "") in ("tolower", "std::tolower"))]
+        pairs = []
+        for g_ in reg4:
+            decls = {d["var"]: d for d in g_.events("decl") if d.get("var")}
+
+            def folded(o_):
+                if fold_re.search(o_.get("t") or ""):
+                    return True
+                d_ = decls.get(o_.get("v"))
+                return d_ is not None and bool(fold_re.search((d_.get("init") or {}).get("t") or ""))
+
+            def is_char(o_):
+                d_ = decls.get(o_.get("v"))
+                return "char" in (o_.get("ty") or "") or (d_ is not None and "char" in (d_.get("type") or ""))
+            for e in g_.events("cmp"):
+                if e.get("op") in ("!=", "==") and is_char(e.get("lhs") or {}) and is_char(e.get("rhs") or {}) and e.get("rconst") is None:
+                    fl_, fr_ = folded(e["lhs"]), folded(e["rhs"])
+                    if fl_ or fr_:
+                        pairs.append((e, fl_ and fr_))
+        ok = len(tl) >= 1 and bool(pairs) and all(p_[1] for p_ in pairs)
         ck.ob("C18-R4", "match_string/folds-with-tolower", ok, f.loc, f, "both compared characters go through std::tolower" if ok else
-              "the case-insensitive comparison does not fold both operands with tolower (%d tolower calls): punctuation may alias control characters" % len(tl))
+              "the case-insensitive comparison does not fold both operands with tolower (%d tolower calls, %d folded comparisons): punctuation may alias control characters" % (len(tl), len(pairs)))
     qf = lib.single(prog, M + "Q::fromFloat")
     rounds = [e for e in qf.calls(lambda e: (e.get("callee") or "") in ("round", "std::round", "lround", "std::lround", "llround", "nearbyint", "std::nearbyint", "rint", "std::rint"))]
     ck.ob("C18-R4", "Q::fromFloat/rounds", bool(rounds), qf.loc, qf, "round(f * 100.0)" if rounds else "the quality is truncated: q=0.29 parses back as 0.28")
